@@ -144,8 +144,14 @@ def _is_ctxmgr(fn: ast.FunctionDef) -> bool:
   if not any(d.endswith('contextmanager') for d in decs) or any(not (d.endswith('contextmanager') or d in ('staticmethod', 'classmethod')) for d in decs):
     return False
   a = fn.args
-  if a.vararg or a.kwarg or a.posonlyargs:
+  if a.kwarg or a.posonlyargs:
     return False
+  if a.vararg:
+    va = a.vararg.arg
+    starred = {id(x.value) for x in ast.walk(fn) if isinstance(x, ast.Starred) and isinstance(x.value, ast.Name) and x.value.id == va}
+    names = [x for x in ast.walk(fn) if isinstance(x, ast.Name) and x.id == va]
+    if not names or not all(id(x) in starred for x in names) or a.kwonlyargs:
+      return False
   ys = [x for x in ast.walk(fn) if isinstance(x, (ast.Yield, ast.YieldFrom))]
   if len(ys) != 1 or isinstance(ys[0], ast.YieldFrom):
     return False
@@ -821,6 +827,25 @@ class _Inliner:
   def _try_inline_with(self, st: ast.With, fn, mod_helpers, meths) -> Optional[List[ast.stmt]]:
     """`with _helper(args) [as v]: BODY` for a private one-yield @contextmanager ->  <before-yield>; BODY; <after-yield>
     (wrapped in try/finally exactly when the helper wraps its yield in one)."""
+    if len(st.items) > 1:
+      # `with a, b: BODY` is `with a: with b: BODY`; split when one of the managers is a private context manager
+      for it in st.items:
+        if isinstance(it.context_expr, ast.Call):
+          r0 = self._resolve(it.context_expr, fn, mod_helpers, meths)
+          if r0 is not None and _is_ctxmgr(r0[0]):
+            inner = ast.With(items=st.items[1:], body=st.body)
+            ast.copy_location(inner, st)
+            outer = ast.With(items=st.items[:1], body=[inner])
+            ast.copy_location(outer, st)
+            inl = self._try_inline_with(inner, fn, mod_helpers, meths)
+            if inl is not None:
+              outer.body = inl
+            if len(outer.items) == 1:
+              res0 = self._try_inline_with(outer, fn, mod_helpers, meths)
+              if res0 is not None:
+                return res0
+            return [outer] if inl is not None else None
+      return None
     if len(st.items) != 1 or not isinstance(st.items[0].context_expr, ast.Call):
       return None
     call = st.items[0].context_expr
@@ -837,8 +862,11 @@ class _Inliner:
       if not pos:
         return None
       bound[pos.pop(0)] = recv
+    extra_pos: List[ast.AST] = []
     if len(call.args) > len(pos):
-      return None
+      if not helper.args.vararg or not all(_simple(a) for a in call.args[len(pos):]):
+        return None
+      extra_pos = list(call.args[len(pos):])
     order = []
     for p_, a in zip(pos, call.args):
       bound[p_] = a
@@ -873,6 +901,18 @@ class _Inliner:
     body = [copy.deepcopy(s_) for s_ in _strip_doc(helper.body)]
     sub = _Subst(mapping, rename)
     body = [sub.visit(s_) for s_ in body]
+    if helper.args.vararg:
+      va = helper.args.vararg.arg
+      for b_ in body:
+        for x in ast.walk(b_):
+          if isinstance(x, ast.Call):
+            newa = []
+            for a_ in x.args:
+              if isinstance(a_, ast.Starred) and isinstance(a_.value, ast.Name) and a_.value.id in (va, rename.get(va)):
+                newa.extend(copy.deepcopy(e_) for e_ in extra_pos)
+              else:
+                newa.append(a_)
+            x.args = newa
 
     def splice(stmts: List[ast.stmt]) -> Optional[List[ast.stmt]]:
       for i, s_ in enumerate(stmts):
@@ -1024,8 +1064,12 @@ class _Inliner:
         rename[p] = nm
       else:
         mapping[p] = e
+    # a pure delegation (`def m(..): return helper(..)`) keeps the helper's local names: nothing to capture but parameters
+    own_body = _strip_doc(fn.body)
+    sole = len(own_body) == 1 and own_body[0] is st
+    fn_params = {a.arg for a in fn.args.args + fn.args.kwonlyargs + fn.args.posonlyargs}
     for nm in assigned:
-      if nm not in rename and nm not in bound:
+      if nm not in rename and nm not in bound and not (sole and nm not in fn_params):
         rename[nm] = f'{nm}__{tag}'
     body = [copy.deepcopy(s) for s in _strip_doc(helper.body)]
     flagged = _needs_flags(body)
@@ -2759,6 +2803,158 @@ def _fold_single_use_temps(fn: ast.FunctionDef) -> int:
   return n
 
 
+def _partial_methods_to_closures(tree: ast.Module) -> int:
+  """`f = functools.partial(self._m, a, b)` in a method of the class that defines the private method `_m` (arguments simple,
+  `_m` never re-binds the bound parameters) is the closure `def _m(<remaining parameters>): <body of _m with a, b in
+  place>` followed by `f = _m`: the inverse of turning a loop-body closure into a method."""
+  n = 0
+  for c in [x for x in tree.body if isinstance(x, ast.ClassDef)]:
+    meths = {m.name: m for m in c.body if isinstance(m, ast.FunctionDef) and not m.decorator_list}
+    for fn in [m for m in c.body if isinstance(m, ast.FunctionDef)]:
+      def do_block(stmts: List[ast.stmt]) -> None:
+        nonlocal n
+        i = 0
+        while i < len(stmts):
+          st = stmts[i]
+          for fld in ('body', 'orelse', 'finalbody'):
+            b = getattr(st, fld, None)
+            if isinstance(b, list) and not isinstance(st, (ast.FunctionDef, ast.ClassDef)):
+              do_block(b)
+          i += 1
+          if not (isinstance(st, ast.Assign) and len(st.targets) == 1 and isinstance(st.targets[0], ast.Name)
+                  and isinstance(st.value, ast.Call) and (_chain(st.value.func) or '') in ('functools.partial', 'partial')
+                  and st.value.args and not st.value.keywords):
+            continue
+          ref, args = st.value.args[0], st.value.args[1:]
+          if not (isinstance(ref, ast.Attribute) and isinstance(ref.value, ast.Name) and ref.value.id == 'self'
+                  and ref.attr in meths and ref.attr.startswith('_') and meths[ref.attr] is not fn):
+            continue
+          m = meths[ref.attr]
+          a = m.args
+          if a.vararg or a.kwarg or a.posonlyargs or a.kwonlyargs or a.defaults or not a.args or a.args[0].arg != 'self':
+            continue
+          params = [p.arg for p in a.args[1:]]
+          if not (0 < len(args) < len(params)) or not all(_simple(x) for x in args) or not _suitable(m):
+            continue
+          assigned = _assigned_names(m)
+          bound = params[:len(args)]
+          if any(p in assigned for p in bound):
+            continue
+          # the arguments must denote the same objects when the closure runs: never re-bound in the enclosing method
+          arg_roots = {(_chain(x) or '').split('.')[0] for x in args if not isinstance(x, ast.Constant)}
+          if any(isinstance(z, ast.Name) and isinstance(z.ctx, (ast.Store, ast.Del)) and z.id in arg_roots
+                 and getattr(z, 'lineno', 0) > st.lineno for z in ast.walk(fn)):
+            continue
+          if any(isinstance(z, (ast.For, ast.While)) and any(y is st for y in ast.walk(z)) for z in ast.walk(fn)):
+            continue
+          mapping = {p: x for p, x in zip(bound, args)}
+          body = [_Subst(mapping, {}).visit(copy.deepcopy(b_)) for b_ in _strip_doc(m.body)]
+          # `del <bound param>` statements lose their subject
+          body = [b_ for b_ in body if not (isinstance(b_, ast.Delete) and all(not isinstance(t, ast.Name) for t in b_.targets))] or [ast.Pass()]
+          inner = ast.FunctionDef(name=m.name, args=ast.arguments(posonlyargs=[], args=[ast.arg(arg=p) for p in params[len(args):]],
+                                                                 kwonlyargs=[], kw_defaults=[], defaults=[]),
+                                  body=body, decorator_list=[])
+          alias = ast.Assign(targets=[ast.Name(id=st.targets[0].id, ctx=ast.Store())], value=ast.Name(id=m.name, ctx=ast.Load()))
+          for o in (inner, alias):
+            ast.copy_location(o, st)
+            ast.fix_missing_locations(o)
+          x_ = st.targets[0].id
+          once = sum(1 for z in ast.walk(fn) if isinstance(z, ast.Name) and z.id == x_ and isinstance(z.ctx, (ast.Store, ast.Del))) == 1
+          taken = any(isinstance(z, ast.Name) and z.id == m.name for z in ast.walk(fn))
+          if once and not taken:
+            # the local is just another name of the closure: read the closure directly
+            for z in ast.walk(fn):
+              if isinstance(z, ast.Name) and z.id == x_ and isinstance(z.ctx, ast.Load):
+                z.id = m.name
+            stmts[i - 1:i] = [inner]
+          else:
+            stmts[i - 1:i] = [inner, alias]
+            i += 1
+          n += 1
+      do_block(fn.body)
+  return n
+
+
+def _reduce_to_loop(tree: ast.Module) -> int:
+  """`return functools.reduce(lambda acc, x: BODY, ITER, INIT)` / `t = functools.reduce(...)` is the loop
+  `acc = INIT; for x in ITER: acc = BODY; return acc` (INIT is evaluated after ITER by reduce's call; both must be
+  simple).  When INIT is a plain local that is dead afterwards (the statement returns, or re-binds that very name) the
+  local itself is the accumulator."""
+  n = 0
+
+  def rewrite(st: ast.stmt) -> Optional[List[ast.stmt]]:
+    nonlocal n
+    if isinstance(st, ast.Return) and isinstance(st.value, ast.Call):
+      c, tgt = st.value, None
+    elif isinstance(st, ast.Assign) and len(st.targets) == 1 and isinstance(st.targets[0], ast.Name) and isinstance(st.value, ast.Call):
+      c, tgt = st.value, st.targets[0].id
+    else:
+      return None
+    if not ((_chain(c.func) or '') in ('functools.reduce', 'reduce') and len(c.args) == 3 and not c.keywords
+            and isinstance(c.args[0], ast.Lambda)):
+      return None
+    lam, it, init = c.args
+    a = lam.args
+    if len(a.args) != 2 or a.vararg or a.kwarg or a.kwonlyargs or a.defaults or a.posonlyargs:
+      return None
+    if not ((_simple(it) or (isinstance(it, ast.Subscript) and _simple(it.value))) and _simple(init)):
+      return None
+    accp, xp = a.args[0].arg, a.args[1].arg
+    n += 1
+    if isinstance(init, ast.Name) and (tgt is None or tgt == init.id):
+      acc = init.id
+      pre: List[ast.stmt] = []
+    else:
+      acc = f'acc__r{n}'
+      pre = [ast.Assign(targets=[ast.Name(id=acc, ctx=ast.Store())], value=init)]
+    xv = f'{xp}__r{n}' if xp == acc else xp
+    class R(ast.NodeTransformer):
+      def visit_Name(self, x: ast.Name):
+        if isinstance(x.ctx, ast.Load) and x.id == accp:
+          return ast.copy_location(ast.Name(id=acc, ctx=ast.Load()), x)
+        if isinstance(x.ctx, ast.Load) and x.id == xp:
+          return ast.copy_location(ast.Name(id=xv, ctx=ast.Load()), x)
+        return x
+
+      def visit_Lambda(self, x):
+        return x
+    body = R().visit(copy.deepcopy(lam.body))
+    loop = ast.For(target=ast.Name(id=xv, ctx=ast.Store()), iter=it,
+                   body=[ast.Assign(targets=[ast.Name(id=acc, ctx=ast.Store())], value=body)], orelse=[])
+    post: List[ast.stmt] = []
+    if tgt is None:
+      post = [ast.Return(value=ast.Name(id=acc, ctx=ast.Load()))]
+    elif tgt != acc:
+      post = [ast.Assign(targets=[ast.Name(id=tgt, ctx=ast.Store())], value=ast.Name(id=acc, ctx=ast.Load()))]
+    out = pre + [loop] + post
+    for o in out:
+      ast.copy_location(o, st)
+      ast.fix_missing_locations(o)
+    return out
+
+  def do_block(stmts: List[ast.stmt]) -> None:
+    i = 0
+    while i < len(stmts):
+      st = stmts[i]
+      for fld in ('body', 'orelse', 'finalbody'):
+        b = getattr(st, fld, None)
+        if isinstance(b, list) and not isinstance(st, ast.ClassDef):
+          do_block(b)
+      if isinstance(st, ast.ClassDef):
+        do_block(st.body)
+      if isinstance(st, ast.Try):
+        for h in st.handlers:
+          do_block(h.body)
+      r = rewrite(st)
+      if r is not None:
+        stmts[i:i + 1] = r
+        i += len(r)
+      else:
+        i += 1
+  do_block(tree.body)
+  return n
+
+
 def _map_to_genexp(tree: ast.Module) -> int:
   """`map(f, xs)` with one iterable and a plain function reference is `(f(x) for x in xs)`: written out so that a private
   helper passed to map() is seen (and inlined) like any other call of it."""
@@ -3003,7 +3199,7 @@ def _propagate_param_aliases(fn: ast.FunctionDef) -> int:
 def normalise(tree: ast.Module, exclude: Optional[Set[str]] = None) -> int:
   """Inlines suitable private helpers in place; returns the number of inlined call sites."""
   ex = anchors() if exclude is None else exclude
-  n_disp = _wrapper_bindings_to_decorators(tree) + _inline_attrgetters(tree) + _inline_enum_aliases(tree) + _suppress_to_try(tree) + _map_to_genexp(tree) + _expand_dispatch_tables(tree)
+  n_disp = _partial_methods_to_closures(tree) + _wrapper_bindings_to_decorators(tree) + _inline_attrgetters(tree) + _inline_enum_aliases(tree) + _suppress_to_try(tree) + _reduce_to_loop(tree) + _map_to_genexp(tree) + _expand_dispatch_tables(tree)
   inl = _Inliner(tree, ex)
   n = inl.run() + n_disp
   n += _unroll_literal_loops(tree)
